@@ -838,6 +838,10 @@ pub enum Stmt {
     Update(String, Vec<(String, Expr)>, Option<Expr>),
     Delete(String, Option<Expr>),
     Select(Select),
+    /// ALTER TABLE t DROP COLUMN c
+    DropColumn(String, String),
+    /// CREATE UNIQUE INDEX name ON t (c)
+    CreateIndex(String, String, String),
 }
 
 impl Stmt {
@@ -869,6 +873,8 @@ impl Stmt {
                 None => format!("DELETE FROM {}", t),
             },
             Stmt::Select(s) => s.sql(full),
+            Stmt::DropColumn(t, c) => format!("ALTER TABLE {} DROP COLUMN {}", t, c),
+            Stmt::CreateIndex(n, t, c) => format!("CREATE UNIQUE INDEX {} ON {} ({})", n, t, c),
         }
     }
     pub fn atoms(&self) -> Vec<String> {
@@ -923,6 +929,8 @@ impl Stmt {
                 a.push("stmt.select".into());
                 a.extend(s.atoms());
             }
+            Stmt::DropColumn(..) => a.push("stmt.alter_drop_column".into()),
+            Stmt::CreateIndex(..) => a.push("stmt.create_index".into()),
         }
         a.sort();
         a.dedup();
@@ -1119,6 +1127,36 @@ impl State {
                 Ok(MOut::Affected(n))
             }
             Stmt::Select(s) => self.select(s),
+            Stmt::DropColumn(tn, c) => {
+                let t = self.tables.get_mut(tn).ok_or(MErr::Name("no such table".into()))?;
+                let i = t.col_idx(c).ok_or(MErr::Name("no such column".into()))?;
+                if t.uniques.iter().any(|u| u.contains(&i)) {
+                    return Err(MErr::Other("column is part of a constraint".into()));
+                }
+                t.cols.remove(i);
+                for r in t.rows.iter_mut() {
+                    r.remove(i);
+                }
+                for u in t.uniques.iter_mut() {
+                    for k in u.iter_mut() {
+                        if *k > i {
+                            *k -= 1;
+                        }
+                    }
+                }
+                Ok(MOut::Ddl)
+            }
+            Stmt::CreateIndex(_, tn, c) => {
+                let t = self.tables.get_mut(tn).ok_or(MErr::Name("no such table".into()))?;
+                let i = t.col_idx(c).ok_or(MErr::Name("no such column".into()))?;
+                let mut probe = t.clone();
+                probe.uniques.push(vec![i]);
+                if violates_unique(&probe, &probe.rows) {
+                    return Err(MErr::Constraint("existing duplicates".into()));
+                }
+                t.uniques.push(vec![i]);
+                Ok(MOut::Ddl)
+            }
         }
     }
 
